@@ -32,6 +32,7 @@ pub const KF_BLOCK_OPERAND: &str = "C01-wasm-block-operand";
 pub const KF_PROJ_COND: &str = "C01-wasm-proj-in-cond-and-arm";
 pub const KF_CAPTURE_DESTRUCTURED: &str = "C01-wasm-closure-captures-destructured";
 pub const KF_ARRAY_INF: &str = "C01-array-index-infinite";
+pub const KF_VM_DOTS: &str = "C02-defaults-ignored-in-record-with-dots";
 pub const KF_ASSIGN_AFTER_ESCAPE: &str = "C01-vm-assignment-after-closure-passed-on";
 pub const KF_GLOBAL_RECORD_UPDATE: &str = "C02-field-assignment-to-global-record-ignored";
 pub const KF_WASM_UNCALLED_MATCH_FN: &str = "C01-wasm-uncalled-match-function-without-annotation";
@@ -94,6 +95,11 @@ pub fn pcfg(cx: &Cx) -> (PCfg, Vec<&'static str>) {
     if cx.excluded(KF_GLOBAL_RECORD_UPDATE) {
         c.record_update_in_globals = false;
         off.push(KF_GLOBAL_RECORD_UPDATE);
+    }
+    if cx.excluded(KF_DEFAULT_ARGS) || cx.excluded(KF_VM_DOTS) {
+        c.pack_dots = false;
+        off.push(KF_DEFAULT_ARGS);
+        off.push(KF_VM_DOTS);
     }
     if cx.excluded(KF_ARRAY_INF) {
         c.array_index_inf = false;
